@@ -111,6 +111,64 @@ def step(S, npts, rebalancing, trees=None, sym_coords=True, lmin=1, lmax0=2, ver
     S.prove(sum(cg.coefficient for cg in sa.scheme) == 1, 'step:scheme-coefficients-sum-to-one')
 
 
+def step_scripted(S, n0, rebalancing, max_sel, tree_slice, lmin=1, lmax0=2):
+    """Larger trees in dimension 0 (all binary trees with n0 points, dyadic coordinates), dimension 1 minimal; the solver picks the set
+    of intervals to split (benefit 1, others 0, at most max_sel or all) instead of symbolic benefits, which keeps the path count
+    linear in the number of selections.  Same structural goals as `step`."""
+    d = 2
+    SD, GO, G, EC, RO, RC = dw.mods()
+    f = lib.make_function(S, 'F', d, 1)
+    trees = lib.all_trees(n0)
+    lo, hi = tree_slice
+    trees = trees[lo:hi]
+    t0 = list(trees[S.choice('tree0', len(trees))])
+    xs = [lib.dyadic_coords(t0, 0.0, 1.0), [0.0, 0.5, 1.0]]
+    lv = [t0, [0, 1, 0]]
+    sa, op, grid = dw.make_instance(f, [0.0, 0.0], [1.0, 1.0], boundary=True, rebalancing=rebalancing)
+    dw.prepare_without_evaluation(sa, lmin, lmax0, EC.ErrorCalculatorSingleDimVolumeGuided())
+    dw.install_state(sa, d, xs, lv, lmax0)
+    pre = {k: dw.container_state(sa, k) for k in range(d)}
+    sa.refinements = 0
+    sa.counter = 1
+    # selections among the intervals of dimension 0 only
+    objs0 = sa.refinement.get_refinement_container_for_dim(0).get_objects()
+    subs = dw.subsets_upto(len(objs0), max_sel)
+    sel = set(subs[S.choice('sel', len(subs))])
+    for k, i, o in dw.all_objects(sa, d):
+        o.benefit = 1.0 if (k == 0 and i in sel) else 0.0
+        o.error = o.benefit
+    sa.benefit_max = sa.refinement.get_max_benefit()
+    sa.refine()
+    dw.structure_goals(S, sa, d, 'post')
+    objs1, xs1, lv1 = dw.container_state(sa, 0)
+    want = sorted(set(pre[0][1]) | set((pre[0][1][i] + pre[0][1][i + 1]) / 2 for i in sel))
+    S.prove([float(x) for x in xs1] == [float(x) for x in want], 'step:exactly-the-selected-intervals-are-split-at-the-midpoint')
+    S.observe('lmax', [int(x) for x in sa.lmax])
+
+
+def postprocess(S, n0, rebalancing, lag, lmin=1, lmax0=2):
+    """refinement_postprocessing as a unit: from any valid tree whose deepest level exceeds the current maximum level by `lag`
+    (the state right after the splits of a step, before lmax is raised) it must re-establish lmax >= deepest level and
+    coarsening = lmax - highest end-point level."""
+    d = 2
+    SD, GO, G, EC, RO, RC = dw.mods()
+    f = lib.make_function(S, 'F', d, 1)
+    trees = [t for t in lib.all_trees(n0) if max(t) - lag >= lmax0]
+    if not trees:
+        S.assume(False)
+    t0 = list(trees[S.choice('tree0', len(trees))])
+    xs = [lib.dyadic_coords(t0, 0.0, 1.0), [0.0, 0.25, 0.5, 0.75, 1.0]]
+    lv = [t0, [0, 2, 1, 2, 0]]
+    sa, op, grid = dw.make_instance(f, [0.0, 0.0], [1.0, 1.0], boundary=True, rebalancing=rebalancing)
+    dw.prepare_without_evaluation(sa, lmin, lmax0, EC.ErrorCalculatorSingleDimVolumeGuided())
+    dw.install_state(sa, d, xs, lv, lmax0, lag={0: lag})
+    S.observe('lmax_before', [int(x) for x in sa.lmax])
+    sa.refinement_postprocessing()
+    dw.structure_goals(S, sa, d, 'postprocess')
+    S.observe('lmax_after', [int(x) for x in sa.lmax])
+    S.prove(all(all(lmin <= int(cg.levelvector[k]) <= sa.lmax[k] for k in range(d)) for cg in sa.scheme), 'postprocess:scheme-levels-within-lmin-lmax')
+
+
 def _key(x):
     if is_sym(x):
         return ('s', frozenset(x.terms.items()))
@@ -137,8 +195,8 @@ def init(S, d, lmin, lmax0, boundary):
 
 
 BOUNDS = {
-    'quick': {'step: points per dimension': [(3, 3), (4, 3), (4, 4), (5, 3)], 'rebalancing': [True, False], 'coordinates': 'symbolic ordered reals',
-              'init: (d, lmin, lmax0)': [(2, 1, 2), (2, 1, 3), (3, 1, 2), (2, 2, 3)]},
+    'quick': {'step: points per dimension': [(3, 3), (4, 3), (4, 4), (5, 3)], 'rebalancing': [True, False], 'coordinates': 'symbolic ordered reals', 'scripted selections': 'all trees with 7 and 8 points in dimension 0, <= 3 selected intervals (or all), dyadic coordinates',
+              'postprocessing unit': 'all trees with 5..7 points whose deepest level exceeds lmax by 1, 2 or 3', 'init: (d, lmin, lmax0)': [(2, 1, 2), (2, 1, 3), (3, 1, 2), (2, 2, 3)]},
     'thorough': {'step: points per dimension': [(3, 3), (4, 3), (5, 3), (6, 3), (4, 4), (5, 4), (3, 3, 3)], 'rebalancing': [True, False],
                  'coordinates': 'symbolic ordered reals', 'init: (d, lmin, lmax0)': [(2, 1, 2), (2, 1, 3), (2, 1, 4), (3, 1, 2), (3, 1, 3), (2, 2, 3), (4, 1, 2)]},
 }
@@ -178,6 +236,23 @@ def jobs(tier):
                 js.append(Job('step[pts=%s,%s,trees=%s]' % ('x'.join(map(str, npts)), 'rebal' if reb else 'norebal', '-'.join(map(str, trees))), step,
                               {'npts': list(npts), 'rebalancing': reb, 'trees': list(trees)}, validate=(9 if tier == 'quick' else 4), timeout_ms=30000,
                               budget_s=(600 if tier == 'quick' else 3000)))
+    for n0 in ((7, 8) if tier == 'quick' else (7, 8, 9, 10)):
+        ntrees = len(lib.all_trees(n0))
+        chunk = max(1, ntrees // (8 if tier == 'quick' else 16))
+        for reb in (True, False):
+            if not reb and n0 > 8:
+                continue
+            for lo in range(0, ntrees, chunk):
+                js.append(Job('step-scripted[n0=%d,%s,trees=%d-%d]' % (n0, 'rebal' if reb else 'norebal', lo, min(ntrees, lo + chunk)), step_scripted,
+                              {'n0': n0, 'rebalancing': reb, 'max_sel': 3 if n0 <= 9 else 2, 'tree_slice': [lo, lo + chunk]},
+                              validate=(41 if tier == 'quick' else 17), budget_s=(600 if tier == 'quick' else 3000)))
+    for n0 in ((5, 6, 7) if tier == 'quick' else (5, 6, 7, 8, 9)):
+        for reb in (True, False):
+            for lag in (1, 2, 3):
+                if not any(max(t) - lag >= 2 for t in lib.all_trees(n0)):
+                    continue
+                js.append(Job('postprocess[n0=%d,%s,lag=%d]' % (n0, 'rebal' if reb else 'norebal', lag), postprocess,
+                              {'n0': n0, 'rebalancing': reb, 'lag': lag}, validate=(11 if tier == 'quick' else 5), budget_s=(600 if tier == 'quick' else 3000)))
     for (d, lmin, lmax0) in b['init: (d, lmin, lmax0)']:
         for boundary in (True, False):
             js.append(Job('init[d=%d,lmin=%d,lmax=%d,%s]' % (d, lmin, lmax0, 'b' if boundary else 'nb'), init,
